@@ -36,6 +36,7 @@ class Contract:
         self.loops = kw.pop("loops", {})
         self.assumed = kw.pop("assumed", False)      # trusted: never verified, always listed
         self.inline = kw.pop("inline", False)
+        self.at_cut = _idlist(kw.pop("at_cut", []), "cut")   # prefix mode: clauses that must hold where the path is cut
         self.prefix = kw.pop("prefix", False)        # verify only the refusal prefix (up to the first unmodelled statement)
         self.wip = kw.pop("wip", False)              # work in progress: not verified, not claimed, listed as such
         self.props = kw.pop("props", [])             # property ids this unit serves
